@@ -219,7 +219,9 @@ func handleObjectWithAssociation(metaBkt *bbolt.Bucket, diff *CountersDiff, curr
 		}
 
 		st := objectStatus(metaCursor, target, currEpoch)
-		if st == statusTombstoned {
+		// expiration takes precedence in the status, so check the tombstone itself too:
+		// a lock must not bring a removed (and meanwhile expired) object back
+		if st == statusTombstoned || inGarbage(metaCursor, target) == statusTombstoned {
 			return logicerr.Wrap(apistatus.ErrObjectAlreadyRemoved)
 		}
 
